@@ -6,6 +6,7 @@ import (
 	"fmt"
 	"go/constant"
 	"go/types"
+	"sort"
 	"strings"
 
 	"golang.org/x/tools/go/ssa"
@@ -472,8 +473,8 @@ func (c *SpecCtx) addrOpt(e Expr) (string, types.Type) {
 			}
 		}
 		// ghost field
-		if gt, ok := c.ghostField(st, x.Name); ok {
-			return fmt.Sprintf("(%s %s)", env.fieldFnNamed("gfld_"+sanitize(ghostOwner(st))+"_"+x.Name), base), gt
+		if gt, owner, ok := c.ghostField(st, x.Name); ok {
+			return fmt.Sprintf("(%s %s)", env.fieldFnNamed("gfld_"+sanitize(owner)+"_"+x.Name), base), gt
 		}
 		c.fail("no field %s in %s", x.Name, st)
 	case *EIndex:
@@ -515,14 +516,19 @@ func ghostOwner(t types.Type) string {
 	return shortTypeName(t)
 }
 
-func (c *SpecCtx) ghostField(owner types.Type, name string) (types.Type, bool) {
+func (c *SpecCtx) ghostField(owner types.Type, name string) (types.Type, string, bool) {
 	on := ghostOwner(owner)
 	for _, g := range c.env().specs.GFields {
-		if g.Field == name && (g.Type == on || strings.HasSuffix(on, "."+g.Type) || (g.Type == "any" && on != "chan")) {
-			return c.resolveType(g.FType), true
+		if g.Field == name && (g.Type == on || strings.HasSuffix(on, "."+g.Type)) {
+			return c.resolveType(g.FType), on, true
 		}
 	}
-	return nil, false
+	for _, g := range c.env().specs.GFields {
+		if g.Field == name && g.Type == "any" && on != "chan" {
+			return c.resolveType(g.FType), "any", true
+		}
+	}
+	return nil, "", false
 }
 
 func (c *SpecCtx) binary(x *EBinary) Val {
@@ -751,6 +757,34 @@ func (c *SpecCtx) call(x *ECall) Val {
 		}
 		t := c.resolveType(tn)
 		return Val{T: fmt.Sprintf("(= (iface_type %s) %d)", v.T, env.typeTagOf(t)), Ty: tBool}
+	case "isFieldOf":
+		// isFieldOf(a, T.f): address a is the field f of some object of struct type T
+		v := arg(0)
+		sel, ok := x.Args[1].(*ESel)
+		if !ok {
+			c.fail("isFieldOf(a, T.f) expected")
+		}
+		t := c.resolveType(sel.X.String())
+		st, ok := t.Underlying().(*types.Struct)
+		if !ok {
+			c.fail("isFieldOf: %s is not a struct", sel.X)
+		}
+		for i := 0; i < st.NumFields(); i++ {
+			if st.Field(i).Name() == sel.Name {
+				fn := env.fieldFn(t, i)
+				return Val{T: fmt.Sprintf("(= (ftag %s) %d)", refOf(c, v), env.fieldTag[fn]), Ty: tBool}
+			}
+		}
+		c.fail("isFieldOf: no field %s", sel.Name)
+	case "isStructField":
+		v := arg(0)
+		return Val{T: fmt.Sprintf("(and (>= (ftag %s) 1) (< (ftag %s) 1000000))", refOf(c, v), refOf(c, v)), Ty: tBool}
+	case "isElem":
+		// isElem(a): address a is an array/slice element
+		v := arg(0)
+		return Val{T: fmt.Sprintf("(= (ftag %s) (- 1))", refOf(c, v)), Ty: tBool}
+	case "f64zero":
+		return Val{T: "f64_zero", Ty: types.Typ[types.Float64]}
 	case "cast":
 		v := arg(0)
 		return Val{T: v.T, Ty: c.resolveType(x.Args[1].String())}
@@ -938,6 +972,48 @@ func (c *SpecCtx) locs(e Expr) []Loc {
 			}
 			hh, hv := env.mapHeaps(mt)
 			return []Loc{{Heap: hh, Addr: v.T, MapRow: true}, {Heap: hv, Addr: v.T, MapRow: true}}
+		case "region":
+			// every non-ghost address satisfying a pure predicate over a ref, in every scalar heap
+			id, ok := call.Args[0].(*EIdent)
+			if !ok {
+				c.fail("region(pred) expects the name of a pure predicate")
+			}
+			d := c.with(map[string]Val{"%a": {T: "%ADDR%", Ty: types.Typ[types.UnsafePointer]}})
+			v := d.eval(&ECall{Fun: id.Name, Args: []Expr{&EIdent{Name: "%a"}}})
+			cond := fmt.Sprintf("(and %s (not (= (ftag %%ADDR%%) (- 4))) (< (ftag %%ADDR%%) 1000000))", v.T)
+			var out []Loc
+			for hn := range heapSortTable {
+				if strings.HasPrefix(hn, "Mem_") {
+					out = append(out, Loc{Heap: hn, Pred: cond})
+				}
+			}
+			sort.Slice(out, func(i, j int) bool { return out[i].Heap < out[j].Heap })
+			return out
+		case "ghostfields":
+			// ghost field `name` of every object
+			id, ok := call.Args[0].(*EIdent)
+			if !ok {
+				c.fail("ghostfields(name) expected")
+			}
+			for _, g := range env.specs.GFields {
+				if g.Field == id.Name {
+					owner := g.Type
+					fn := env.fieldFnNamed("gfld_" + sanitize(owner) + "_" + g.Field)
+					return []Loc{{Heap: env.memHeap(c.resolveType(g.FType)), AllTag: env.fieldTag[fn]}}
+				}
+			}
+			c.fail("no ghost field %s", id.Name)
+		case "cell":
+			// the object at address x, whatever its type: that address in every scalar heap
+			v := c.eval(call.Args[0])
+			var out []Loc
+			for hn := range heapSortTable {
+				if strings.HasPrefix(hn, "Mem_") {
+					out = append(out, Loc{Heap: hn, Addr: refOf(c, v)})
+				}
+			}
+			sort.Slice(out, func(i, j int) bool { return out[i].Heap < out[j].Heap })
+			return out
 		case "fields":
 			// field f of every object of type T: fields(T.f)
 			sel, ok := call.Args[0].(*ESel)
